@@ -235,9 +235,9 @@ def _run(ctx):
     t_ = T.var("t")
     env = {}
     for k in (0, 1):
-        env[proj(("param", g.path, gd_i), ("i", k))] = d[k]
-        env[proj(proj(("param", g.path, gp_i), ("i", k)), ("f", "amount"))] = r[k]
-    env[proj(proj(("param", g.path, gt_i), ("v", "Some")), ("f", 0))] = t_
+        env[proj(common.param_value(g, gd_i), ("i", k))] = d[k]
+        env[proj(proj(common.param_value(g, gp_i), ("i", k)), ("f", "amount"))] = r[k]
+    env[proj(proj(common.param_value(g, gt_i), ("v", "Some")), ("f", 0))] = t_
     seen_dirs = set()
     for (gg, kind, a, b_) in gts:
         where = common.span_of_block_term(g, gg.b)
